@@ -34,8 +34,8 @@ def own(key):
 def run(tier, seed, scale=1.0):
     t0 = time.time()
     quick = tier == "quick"
-    n_rt = int((22000 if quick else 1500000) * scale)
-    n_uw = int((18000 if quick else 900000) * scale)
+    n_rt = int((22000 if quick else 1800000) * scale)
+    n_uw = int((18000 if quick else 1200000) * scale)
     n_sub = max(64, int((800 if quick else 30000) * scale))
     res = vdriver.Result()
 
